@@ -312,3 +312,14 @@ U("ctx.deregister", src="units/ctx_unit.c", harness="h_ctx_deregister", enforce=
   defines=["V_CTXAPI_UNIT"], props=["C07", "C15", "C04"], contract_files=CTXAPI, native=False, timeout=120, min_obligations=20)
 U("ctx.register", src="units/ctx_unit.c", harness="h_ctx_register", enforce="m_ctx_register", replace=["str_not_empty", "v_pthread_once", "v_pthread_getspecific", "ctx_new"], logctx="CORE",
   defines=["V_CTXAPI_UNIT"], props=["C07", "C04"], contract_files=CTXAPI, native=False, timeout=300, min_obligations=20)
+U("mod.reset_module", src="units/mod_unit.c", harness="h_reset_module", enforce="reset_module", defines=["V_RESET_UNIT"],
+  replace=["v_close", "m_map_clear", "m_stack_clear", "m_queue_clear", "m_list_clear"], logctx="CORE",
+  props=["C20", "C13", "C16", "C17", "C18", "C09", "C04"], contract_files=ABS + ["contracts/cb.contracts.h", "contracts/fd.contracts.h"], native=False, timeout=300, min_obligations=20)
+PROPS["C20"] = {"level": "proof", "level_text": "TODO", "level_note": "TODO", "not_decided": [], "explanation": "TODO"}
+POLLC = ABS + ["contracts/fd.contracts.h", "contracts/poll.contracts.h"]
+U("poll.set_new_evt", src="units/poll_unit.c", harness="h_poll_set_new_evt", enforce="poll_set_new_evt", defines=["V_POLL_UNIT"],
+  replace=["v_epoll_ctl", "v_close", "v_timerfd_create", "v_timerfd_settime", "v_signalfd", "v_sigprocmask", "v_inotify_init1", "v_inotify_add_watch", "v_eventfd"], logctx="CORE",
+  props=["C20", "C03", "C04"], contract_files=POLLC, native=False, timeout=300, min_obligations=20)
+U("src.priv_dtor", src="units/poll_unit.c", harness="h_src_priv_dtor", enforce="src_priv_dtor", defines=["V_SRCDTOR_UNIT"],
+  replace=["m_mod_is", "poll_set_new_evt", "v_close"], logctx="CORE",
+  props=["C20", "C04"], contract_files=POLLC, native=False, timeout=300, min_obligations=20)
